@@ -55,6 +55,14 @@ def cases(rng, tier):
     n = fw.tier_scale(tier, 4000, 60000)
     for i in range(n):
         op = OPS[i % len(OPS)]
+        if rng.random() < 0.1:
+            # re-entrant outer emission: a synchronously emitting inner makes the consumer push the NEXT inner into the (hot) outer
+            # while the first one is still inside its subscribe call (the operator's bookkeeping must already count it)
+            c = cc.gen_feedback_case(rng, op if op != "rx_merge" else "merge")
+            if c["op"] == "merge":
+                c["maxc"] = rng.choice([1, 1, 1, 2])
+            yield c
+            continue
         # inners that take their scheduler from the subscription (rx.timer without a scheduler) - also as QUEUED inners
         c = cc.gen_ho_case(rng, op, p_timer=0.3)
         if op == "merge":
@@ -63,7 +71,7 @@ def cases(rng, tier):
             c["outer"]["msgs"] = [m for m in c["outer"]["msgs"] if m[1] == "N"]
             c["outer"]["mode"] = "cold"
         # oracle-only: a second subscriber on the same observable instance must see what a fresh instance gives it
-        if op != "rx_merge" and rng.random() < (0.2 if op in ("merge", "concat_map") else 0.05):
+        if rng.random() < (0.2 if op in ("merge", "concat_map", "rx_merge") else 0.05):
             c["second"] = cc.gen_second(rng)
             c["dispose"] = None
         yield c
@@ -205,6 +213,8 @@ def bucket(case, out):
     yield "simultaneous=" + str(len(ts) != len(set(ts)))
     yield "dispose=" + str(case.get("dispose") is not None)
     yield "mapper_raises=" + str("raise_on" in case)
+    if case.get("feedback"):
+        yield "feedback_reentrant_outer_emission"
     for s in case["inners"].values():
         yield "inner=" + s["mode"] + ("-rude" if s.get("rude") else "")
     if maxc_of(case) is not None:
